@@ -192,9 +192,9 @@ Lemma octet_facts c :
   c < 128 /\ uni_ws c = false /\ ascii_ws c = false /\ c <> SEMI /\ c <> DQ /\ c <> LF.
 Proof. unfold cookie_octet, uni_ws, ascii_ws, SEMI, DQ, LF. lia. Qed.
 
-Lemma utf8_decode_ascii s : forallb (fun c => c <? 128) s = true -> utf8_decode s = Some s.
+Lemma utf8_decode_replace_ascii s : forallb (fun c => c <? 128) s = true -> utf8_decode_replace s = s.
 Proof.
-  induction s as [|c s IH]; cbn [forallb utf8_decode]; intro H; [reflexivity|].
+  induction s as [|c s IH]; cbn [forallb utf8_decode_replace]; intro H; [reflexivity|].
   apply andb_prop in H. destruct H as [Hc Hs]. rewrite Hc, IH by exact Hs. reflexivity.
 Qed.
 
@@ -349,7 +349,7 @@ Proof.
   unfold latin1_encode.
   replace (forallb (fun c => c <? 256) hdr) with true.
   2:{ symmetry. eapply forallb_impl; [|exact Hascii]. intros c Hc. cbv beta in *. lia. }
-  rewrite utf8_decode_ascii by exact Hascii. rewrite Hp. reflexivity.
+  rewrite utf8_decode_replace_ascii by exact Hascii. rewrite Hp. reflexivity.
 Qed.
 
 (* ------------------------------------------------------------------ the emitted value cannot
